@@ -32,13 +32,15 @@ import (
 
 type Cell struct {
 	Vers     uint16 `json:"vers"`
-	Kx       string `json:"kx"`     // rsa | ecdhe | dhe | tls13
-	Key      string `json:"key"`    // rsa | p256 | ed25519 (server key type)
-	Skip     bool   `json:"skip"`   // InsecureSkipVerify
-	Server   string `json:"server"` // trusted untrusted expired notyet wrongname badcertsig wrongkey corruptsig
-	Mode     int    `json:"mode"`   // ClientAuthType
-	Client   string `json:"client"` // none good untrusted expired wrongkey corruptsig
-	CKey     string `json:"ckey"`   // client key type
+	Kx       string `json:"kx"`               // rsa | ecdhe | dhe | tls13
+	Key      string `json:"key"`              // rsa | p256 | ed25519 (server key type)
+	Skip     bool   `json:"skip"`             // InsecureSkipVerify
+	Server   string `json:"server"`           // trusted untrusted expired notyet wrongname badcertsig wrongkey corruptsig
+	Mode     int    `json:"mode"`             // ClientAuthType
+	Client   string `json:"client"`           // none good untrusted expired wrongkey corruptsig
+	CKey     string `json:"ckey"`             // client key type
+	SChain   string `json:"schain,omitempty"` // what the server sends after its leaf: "" | inter | rogueca
+	CChain   string `json:"cchain,omitempty"` // what the client sends after its leaf
 	RandSeed uint64 `json:"rand_seed"`
 }
 
@@ -70,6 +72,8 @@ func leafFor(kind, key, who string) []byte {
 		spec.CN = "other.example"
 	case "wrongeku":
 		spec.EKU = []x509.ExtKeyUsage{x509.ExtKeyUsageServerAuth}
+	case "viainter":
+		spec.Issuer, spec.IssuerCN = "p384A", "verif intermediate"
 	}
 	der := pair.Issue(spec)
 	if kind == "badcertsig" {
@@ -80,6 +84,24 @@ func leafFor(kind, key, who string) []byte {
 }
 
 var rootDER = pair.Issue(pair.CertSpec{Key: "caRoot", CN: "verif root", IsCA: true, Serial: 100})
+var interDER = pair.Issue(pair.CertSpec{Key: "p384A", Issuer: "caRoot", IssuerCN: "verif root", CN: "verif intermediate", IsCA: true, Serial: 101})
+var evilDER = pair.Issue(pair.CertSpec{Key: "caEvil", CN: "evil root", IsCA: true, Serial: 102})
+
+// chainTail: the certificates a peer sends after its leaf
+func chainTail(kind string) [][]byte {
+	switch kind {
+	case "inter":
+		return [][]byte{interDER}
+	case "rogueca":
+		return [][]byte{evilDER}
+	}
+	return nil
+}
+
+// shared state of a sequence of connections: the trust pools of the two Config objects
+type shared struct {
+	clientCAs, rootCAs *x509.CertPool
+}
 
 func stdPool() *stdx509.CertPool {
 	p := stdx509.NewCertPool()
@@ -92,13 +114,19 @@ func stdPool() *stdx509.CertPool {
 }
 
 // facts about a presented leaf, derived with the standard library
-func stdFacts(der []byte, name string, usage stdx509.ExtKeyUsage) (chain, timeOK, nameOK bool) {
+func stdFacts(der []byte, tail [][]byte, name string, usage stdx509.ExtKeyUsage) (chain, timeOK, nameOK bool) {
 	c, err := stdx509.ParseCertificate(der)
 	if err != nil {
 		return false, false, false
 	}
 	mid := c.NotBefore.Add(c.NotAfter.Sub(c.NotBefore) / 2)
-	_, err = c.Verify(stdx509.VerifyOptions{Roots: stdPool(), CurrentTime: mid, KeyUsages: []stdx509.ExtKeyUsage{usage}})
+	inter := stdx509.NewCertPool()
+	for _, d := range tail {
+		if ic, err := stdx509.ParseCertificate(d); err == nil {
+			inter.AddCert(ic)
+		}
+	}
+	_, err = c.Verify(stdx509.VerifyOptions{Roots: stdPool(), Intermediates: inter, CurrentTime: mid, KeyUsages: []stdx509.ExtKeyUsage{usage}})
 	chain = err == nil
 	timeOK = !pair.Now.Before(c.NotBefore) && !pair.Now.After(c.NotAfter)
 	nameOK = name == "" || c.VerifyHostname(name) == nil
@@ -159,7 +187,12 @@ func kxCoq(k string) string {
 	return map[string]string{"rsa": "KxRSA", "ecdhe": "KxECDHE", "dhe": "KxDHE", "tls13": "Kx13"}[k]
 }
 
-func runCell(c *vh.Ctx, cell Cell) {
+func runCell(c *vh.Ctx, cell Cell) { runCellShared(c, cell, nil, cell) }
+
+func runCellShared(c *vh.Ctx, cell Cell, sh *shared, input interface{}) {
+	if sh == nil {
+		sh = &shared{clientCAs: pair.Pool(rootDER), rootCAs: pair.Pool(rootDER)}
+	}
 	// ---- server identity
 	skey := keyA[cell.Key]
 	sleaf := leafFor(cell.Server, skey, "test.example")
@@ -197,10 +230,10 @@ func runCell(c *vh.Ctx, cell Cell) {
 			}
 		}
 	}
-	sc := &tls.Config{Certificates: []tls.Certificate{{Certificate: [][]byte{sleaf}, PrivateKey: spriv}},
+	sc := &tls.Config{Certificates: []tls.Certificate{{Certificate: append([][]byte{sleaf}, chainTail(cell.SChain)...), PrivateKey: spriv}},
 		Time: pair.Clock, Rand: pair.NewRand(cell.RandSeed*2 + 2), SessionTicketsDisabled: true,
-		ClientAuth: tls.ClientAuthType(cell.Mode), ClientCAs: pair.Pool(rootDER), CipherSuites: suiteFor(cell.Kx, cell.Key)}
-	cc := &tls.Config{MinVersion: cell.Vers, MaxVersion: cell.Vers, ServerName: "test.example", RootCAs: pair.Pool(rootDER),
+		ClientAuth: tls.ClientAuthType(cell.Mode), ClientCAs: sh.clientCAs, CipherSuites: suiteFor(cell.Kx, cell.Key)}
+	cc := &tls.Config{MinVersion: cell.Vers, MaxVersion: cell.Vers, ServerName: "test.example", RootCAs: sh.rootCAs,
 		Time: pair.Clock, Rand: pair.NewRand(cell.RandSeed*2 + 1), SessionTicketsDisabled: true,
 		InsecureSkipVerify: cell.Skip, CipherSuites: suiteFor(cell.Kx, cell.Key), ForceSuites: cell.Kx != "tls13"}
 	// ---- client identity
@@ -222,7 +255,7 @@ func runCell(c *vh.Ctx, cell Cell) {
 			cpriv = badSigner{pair.Key(ck)}
 			cSigIntact = false
 		}
-		cert := &tls.Certificate{Certificate: [][]byte{cleaf}, PrivateKey: cpriv}
+		cert := &tls.Certificate{Certificate: append([][]byte{cleaf}, chainTail(cell.CChain)...), PrivateKey: cpriv}
 		cc.GetClientCertificate = func(*tls.CertificateRequestInfo) (*tls.Certificate, error) { return cert, nil }
 		cPresents = cell.Mode != 0
 	}
@@ -233,20 +266,20 @@ func runCell(c *vh.Ctx, cell Cell) {
 	_, o.AppAlert = pair.Classify(r.ClientAppErr)
 	o.Done = r.AppOK
 	// ---- facts, re-derived with the standard library
-	chain, timeOK, nameOK := stdFacts(sleaf, "test.example", stdx509.ExtKeyUsageServerAuth)
+	chain, timeOK, nameOK := stdFacts(sleaf, chainTail(cell.SChain), "test.example", stdx509.ExtKeyUsageServerAuth)
 	cChain := false
 	if cleaf != nil {
-		ch, tm, _ := stdFacts(cleaf, "", stdx509.ExtKeyUsageClientAuth)
+		ch, tm, _ := stdFacts(cleaf, chainTail(cell.CChain), "", stdx509.ExtKeyUsageClientAuth)
 		cChain = ch && tm
 	}
 	sf := vh.App("mkServerFacts", vh.Bool(chain), vh.Bool(timeOK), vh.Bool(nameOK), vh.Bool(keyMatches), vh.Bool(sigIntact))
 	cf := vh.App("mkClientFacts", vh.Bool(cPresents), vh.Bool(cChain), vh.Bool(cKeyMatches), vh.Bool(cSigIntact))
-	nk := fmt.Sprintf("%x|%s|%s|%v|%s|%d|%s|%s", cell.Vers, cell.Kx, cell.Key, cell.Skip, cell.Server, cell.Mode, cell.Client, cell.CKey)
-	c.Case("case", vh.Pair(vh.Bool(cell.Skip), kxCoq(cell.Kx), sf, vh.NI(cell.Mode), cf, coqOutcome(o, cell.Kx == "rsa" && cell.Server == "wrongkey")), cell, nk)
+	nk := fmt.Sprintf("%x|%s|%s|%v|%s|%d|%s|%s|%s|%s", cell.Vers, cell.Kx, cell.Key, cell.Skip, cell.Server, cell.Mode, cell.Client, cell.CKey, cell.SChain, cell.CChain)
+	c.Case("case", vh.Pair(vh.Bool(cell.Skip), kxCoq(cell.Kx), sf, vh.NI(cell.Mode), cf, coqOutcome(o, cell.Kx == "rsa" && cell.Server == "wrongkey")), input, nk)
 	c.Stat("server."+cell.Server, 1)
 	// ---- direct oracle: the property on the implementation alone
 	clientDone, serverDone := r.ClientErr == nil, r.ServerErr == nil
-	viol := func(key, desc string) { c.Violation(key, desc, "case", cell) }
+	viol := func(key, desc string) { c.Violation(key, desc, "case", input) }
 	if clientDone && !cell.Skip && !(chain && timeOK && nameOK && keyMatches && (sigIntact || cell.Kx == "rsa")) {
 		viol("client-accepted-"+cell.Server, fmt.Sprintf("client with verification enabled completed the handshake: chain=%v time=%v name=%v key=%v signature=%v (%s, version %x)", chain, timeOK, nameOK, keyMatches, sigIntact, cell.Kx, cell.Vers))
 	}
@@ -399,6 +432,28 @@ func checkSKX(c *vh.Ctx, cell Cell, r *pair.Result, leaf []byte) {
 	}
 }
 
+// SeqIn: connections made one after the other with the same trust pools (the ClientCAs pool of
+// the server Config, the RootCAs pool of the client Config).  What an earlier peer presented
+// must not change the judgement of a later one.
+type SeqIn struct {
+	Seq []Cell `json:"seq"`
+}
+
+func runSeq(c *vh.Ctx, in SeqIn) {
+	sh := &shared{clientCAs: pair.Pool(rootDER), rootCAs: pair.Pool(rootDER)}
+	n1, n2 := sh.clientCAs.Size(), sh.rootCAs.Size()
+	for _, cell := range in.Seq {
+		runCellShared(c, cell, sh, in)
+	}
+	if sh.clientCAs.Size() != n1 {
+		c.Violation("client-cas-polluted", fmt.Sprintf("Config.ClientCAs held %d certificates before the connections and %d after", n1, sh.clientCAs.Size()), "case", in)
+	}
+	if sh.rootCAs.Size() != n2 {
+		c.Violation("root-cas-polluted", fmt.Sprintf("Config.RootCAs held %d certificates before the connections and %d after", n2, sh.rootCAs.Size()), "case", in)
+	}
+	c.Stat("sequences", 1)
+}
+
 var lseen = map[string]bool{}
 
 func gen(c *vh.Ctx) {
@@ -463,6 +518,33 @@ func gen(c *vh.Ctx) {
 		}
 	}
 	c.Exhaustive("ClientAuthType (5) x client certificate scenario (6) x version TLS 1.0-1.3 x client key type")
+	// 2b. chains and reuse of the trust pools across connections: a trusted leaf + intermediate
+	// passes; a rogue leaf + its own CA fails; the rogue leaf alone still fails afterwards; a good
+	// client still passes
+	for _, v := range versions {
+		kx, key := "ecdhe", "rsa"
+		if v == tls.VersionTLS13 {
+			kx, key = "tls13", "p256"
+		}
+		for _, mode := range []int{3, 4} {
+			seed++
+			base := Cell{Vers: v, Kx: kx, Key: key, Server: "trusted", Mode: mode, CKey: "p256", RandSeed: seed}
+			step := func(client, cchain string) Cell {
+				x := base
+				seed++
+				x.RandSeed, x.Client, x.CChain = seed, client, cchain
+				return x
+			}
+			runSeq(c, SeqIn{Seq: []Cell{step("viainter", "inter"), step("untrusted", "rogueca"), step("untrusted", ""), step("viainter", ""), step("good", "")}})
+		}
+		// the symmetric case: what the server sends after its leaf must not become a trust anchor of the client
+		sstep := func(server, schain string) Cell {
+			seed++
+			return Cell{Vers: v, Kx: kx, Key: key, Server: server, SChain: schain, Mode: 0, Client: "none", RandSeed: seed}
+		}
+		runSeq(c, SeqIn{Seq: []Cell{sstep("viainter", "inter"), sstep("untrusted", "rogueca"), sstep("untrusted", ""), sstep("viainter", ""), sstep("trusted", "")}})
+	}
+	c.Exhaustive("per version: client chain sequence (leaf+intermediate, rogue leaf+rogue CA, rogue leaf alone, leaf without its intermediate, good) x VerifyClientCertIfGiven/RequireAndVerifyClientCert on shared ClientCAs, and the same for server chains on shared RootCAs")
 	// 3. both sides faulty / skip-verify with client auth (seeded)
 	n := 40
 	if c.Thorough {
@@ -485,6 +567,11 @@ func gen(c *vh.Ctx) {
 }
 
 func replay(c *vh.Ctx, raw json.RawMessage) {
+	var sq SeqIn
+	if err := json.Unmarshal(raw, &sq); err == nil && len(sq.Seq) > 0 {
+		runSeq(c, sq)
+		return
+	}
 	var cell Cell
 	if err := json.Unmarshal(raw, &cell); err != nil || cell.Kx == "" {
 		c.Note("replay input is not a scenario cell")
